@@ -221,15 +221,61 @@ def conc_job(job):
         shutil.rmtree(d, ignore_errors=True)
     return part
 
-def dispatch(j): return serial_job(j) if j['kind'] == 'serial' else conc_job(j)
+# ------------------------------------------------------------------ (iii) duels: simultaneous commits, then nothing else changes
+def duel_job(job):
+    """Each round both (all) processes start a C_CreateObject of their own object at the same moment (with PRNG delays before record locks and
+    at FS operations), then only search.  Nothing else changes the token afterwards, so a lost change notification is not healed by later
+    traffic: every search that BEGINS after another process's create has RETURNED must find that object."""
+    from ck import CK
+    ck = CK(job['hdr']); part = Part(); d = os.path.join(job['scratch'], 'duel-%d' % job['seed']); shutil.rmtree(d, ignore_errors=True); os.makedirs(d)
+    X = []
+    try:
+        prepare(job['paths'], ck, d); nproc = job['nproc']
+        X = [start(job['paths'], ck, job['cfg'], d, i) for i in range(nproc)]; S = [attach(x) for x in X]
+        for p, x in enumerate(X): x.call('fs', mode='delay', root=os.path.join(d, 'tokens'), seed=job['seed'] * 131 + p, p=job['delay_p'], maxus=job['delay_us'])
+        for rnd_no in range(job['rounds']):
+            labs = [b'duel-%d-p%d' % (rnd_no, p) for p in range(nproc)]; scripts = []
+            for p, x in enumerate(X):
+                Sx = [{'fn': 'C_CreateObject', 's': S[p], 'tmpl': obj_tmpl(x, labs[p], b'own', False)}]
+                for rep in range(3):
+                    for q in range(nproc):
+                        if q != p: Sx += [{'fn': 'C_FindObjectsInit', 's': S[p], 'tmpl': x.T({'CKA_LABEL': labs[q]})}, {'fn': 'C_FindObjects', 's': S[p], 'max': 4}, {'fn': 'C_FindObjectsFinal', 's': S[p]}]
+                scripts.append(Sx)
+            for p, x in enumerate(X): x.send({'fn': 'threads', 'scripts': [scripts[p]], 'timeout': 300})
+            res = [x.recv(300)['results'][0] for x in X]
+            created = {p: (res[p][0]['ns_call'], res[p][0]['ns_ret']) for p in range(nproc) if res[p][0]['rv'] == 0}
+            for p in range(nproc):
+                i = 1
+                for rep in range(3):
+                    for q in range(nproc):
+                        if q == p: continue
+                        init, fo = res[p][i], res[p][i + 1]; i += 3
+                        if q not in created or init['rv'] != 0 or fo['rv'] != 0: continue
+                        if init['ns_call'] > created[q][1] and fo['n'] != 1:
+                            part.violation(f'C_FindObjects|after-simultaneous-commits|found-{fo["n"]}', 'a search that began after another process\'s C_CreateObject had returned does not find the object (a change notification was lost when two processes committed at the same time)', {'seed': job['seed'], 'round': rnd_no, 'searcher': p, 'creator': q})
+                        if fo['n'] > 1: part.violation('C_FindObjects|after-simultaneous-commits|duplicated', 'an object is found twice', {'seed': job['seed'], 'round': rnd_no})
+            ov = sum(1 for a in created.values() for b in created.values() if a is not b and a[0] < b[1] and b[0] < a[1]) // 2
+            part.case(('duel', nproc, min(ov, 3)), nontrivial=len(created) >= 2); part.count('duel_rounds', 1); part.count('duel_overlapping_creates', ov)
+        for x in X: x.call('fs', mode='off'); x.call('C_Finalize'); x.close()
+        X = []
+    except AssertionError as e: part.inconc(f'setup failed: {e!r}')
+    except Died as ex: part.observe('side:C17 library terminated the host', {'kind': ex.kind(), 'fn': ex.fn}); part.inconc(f'executor died: {ex}')
+    except Hang: part.inconc('hang in duel run')
+    finally:
+        for x in X: x.kill()
+        shutil.rmtree(d, ignore_errors=True)
+    return part
+
+def dispatch(j): return serial_job(j) if j['kind'] == 'serial' else duel_job(j) if j['kind'] == 'duel' else conc_job(j)
 def run(ctx):
     ctx.need('plain', 'asan'); common = dict(paths=ctx.paths, hdr=ctx.paths['asan']['hdr'], scratch=ctx.scratch); jobs = []
     for i in range(ctx.q(32, 64)): jobs.append(dict(common, kind='serial', cfg='asan' if i % 4 == 0 else 'plain', seed=ctx.seed * 1000 + i, nproc=2 + (i % 2), cases=ctx.q(40, 200), perms=None))
     for i in range(ctx.q(96, 400)): jobs.append(dict(common, kind='conc', cfg='asan' if i % 4 == 0 else 'plain', seed=ctx.seed * 1000 + 500 + i, nproc=2 + (i % 2), iters=ctx.q(30, 50), delay_p=0.3, delay_us=rnd_us(i)))
+    for i in range(ctx.q(16, 96)): jobs.append(dict(common, kind='duel', cfg='plain', seed=ctx.seed * 1000 + 800 + i, nproc=2 + (i % 2), rounds=ctx.q(30, 120), delay_p=[0.3, 0.6][i % 2], delay_us=[50, 200, 800][i % 3]))
     for part in pmap(dispatch, jobs, max(2, ctx.nproc // 3)): ctx.merge(part)
     ctx.rule = ('(i) one evaluation = one serialised interleaving of 2-3 processes x 1-3 calls (create/set/destroy/find/get on shared labels), distinct = (operation/existence shape, process order); '
                 '(ii) one evaluation = one concurrent run of 2-3 processes (30-50 script steps each) with PRNG delays at FS operations, checked by a history checker (unique written values, per-object register rule, conservation of objects); '
-                'non-trivial when at least one write committed')
+                'non-trivial when at least one write committed; (iii) duels: rounds in which all processes start a C_CreateObject simultaneously (PRNG delays before record locks and at FS operations) and then only search: a search that begins after another create returned must find the object')
     ctx.assumptions += ['file back-end only (the anchors)', 'FS-level interleavings are made likely by delays, not enumerated', 'a call that fails under contention is not a committed write; it is counted as an observation']
 def rnd_us(i): return [50, 200, 1000, 3000][i % 4]
 if __name__ == '__main__': main('C15', run, min_evaluations=100, min_distinct=30)
